@@ -12,6 +12,7 @@ open CuqiVerif CuqiVerif.Proto CuqiVerif.C16
   prox l1 γ x | prox nonneg x | prox box x l u                       -> vector
   lm M Q b x0 nuInit nu0 gradtol maxit      residual r(x) = M x + Q (x∘x) − b, J(x) = M + 2 Q diag(x)
       -> i|x|x_0;…;x_i|nu-final
+  lmstep M Q b x nu nu0                     -> x'|nu'   (one loop body of the model from the point x with damping nu)
   lbfgsb warnflag hasgrad                   -> success approx_grad msgcode
   mininfo hasjac hasnit                     -> grad=some|none nit=some|none   (info entries for fields SciPy does not report)
   mincall min|max method|None hasgrad kw,…  -> method|hasjac|kw,…   (the call handed to scipy.optimize.minimize)
@@ -202,6 +203,34 @@ def stepFista (form : String) (args : List String) : Option String := do
     | none => some "err-dim"
   | _ => none
 
+/-- one pass of the model's LM loop body from a given point and damping: `lmstep M Q b x nu nu0` -> `x'|nu'` -/
+def runLmStep (Ml Ql : List (List Rat)) (b x : List Rat) (nu nu0 : Rat) : String :=
+  let m := Ml.length
+  let n := QMat.ncols Ml
+  if m = 0 ∨ n = 0 then "err-dim" else
+  match toMat m n Ml, toMat m n Ql, toVec m b, toVec n x with
+  | some M, some Q, some b, some x =>
+    let st0 := lmInit (oQ n) (oQ m) (lmRes M Q b) (lmJac M Q) (fun J r => mulVecT J r) x nu
+    match lmSolveQ st0.J st0.nu st0.g with
+    | none => "err-singular"
+    | some _ =>
+      let insolve := fun (J : Mat Rat m n) (nu : Rat) (g : Vector Rat n) => (lmSolveQ J nu g).getD (Vector.replicate n 0)
+      let st := lmStep (oQ n) (oQ m) (lmRes M Q b) (lmJac M Q) (fun J r => mulVecT J r) insolve nu0 st0
+      s!"{fmtV st.x}|{fmtRat st.nu}"
+  | _, _, _, _ => "err-dim"
+
+def stepLmStep (args : List String) : Option String :=
+  match args with
+  | [m, q, b, x, nu, nu0] => do
+    let M ← parseMat m
+    let Q ← parseMat q
+    let b ← parseVec b
+    let x ← parseVec x
+    let nu ← parseRat nu
+    let nu0 ← parseRat nu0
+    some (runLmStep M Q b x nu nu0)
+  | _ => none
+
 def stepLm (args : List String) : Option String :=
   match args with
   | [m, q, b, x0, nuInit, nu0, gradtol, maxit] => do
@@ -275,6 +304,7 @@ def step : List String → String
   | "fista" :: form :: args => orBad (stepFista form args)
   | "prox" :: args => orBad (stepProx args)
   | "lm" :: args => orBad (stepLm args)
+  | "lmstep" :: args => orBad (stepLmStep args)
   | "lbfgsb" :: args => orBad (stepLbfgsb args)
   | "mincall" :: args => orBad (stepMincall args)
   | "mininfo" :: args => orBad (stepMininfo args)
